@@ -661,7 +661,8 @@ def _seg_eq(a, b):
     if sa is None or sb is None:
         return None
     if len(sa) == 1 and len(sb) == 1 and sa[0][0] == 'atom' and sb[0][0] == 'atom' and len(sa[0]) == 4 \
-            and len(sb[0]) == 4 and sa[0][3][1:] == sb[0][3][1:] and sa[0][3][1] is not None:
+            and len(sb[0]) == 4 and sa[0][3][1:] == sb[0][3][1:] and sa[0][3][1] == 0 \
+            and sa[0][3][2] is not None and sa[0][3][2] >= 32:
         # two digests H(text)[a:b] with the same slice: equal iff the hashed texts are equal (congruence one way,
         # the collision-freedom assumption on H the other way); the texts are structured, the digests are not
         ta, tb = sa[0][3][0], sb[0][3][0]
